@@ -196,10 +196,15 @@ void Terminal::Impl::executeExitCmd(SessionContext *s, const Args &)
     if (!(s->options & kQuietMode))
         s->wp_conn->send(s->token, "Bye!\r\n");
 
+    //! 不能直接捕获s，在执行之前该会话可能已被销毁，须通过token重新获取
+    auto st = s->token;
     wp_loop_->runNext(
-        [this, s] {
-            s->wp_conn->endSession(s->token);
-            deleteSession(s->token);
+        [this, st] {
+            auto s = sessions_.at(st);
+            if (s != nullptr) {
+                s->wp_conn->endSession(st);
+                deleteSession(st);
+            }
         },
         __func__
     );
